@@ -53,9 +53,9 @@ Lemma split_on_snoc_sep s : split_on SL (s ++ [SL]) = split_on SL s ++ [[]].
 Proof. now rewrite split_on_app. Qed.
 
 (* the joined string starts with a non-slash character *)
-Lemma join_head cs c0 r : cs = c0 :: r -> comp_ok c0 -> exists ch t, join [SL] cs = ch :: t /\ ch <> SL.
+Lemma join_head c0 r : comp_ok c0 -> exists ch t, join [SL] (c0 :: r) = ch :: t /\ ch <> SL.
 Proof.
-  intros -> [Hn Hne]. destruct c0 as [|ch c0]; [congruence|].
+  intros [Hn Hne]. destruct c0 as [|ch c0]; [congruence|].
   exists ch. destruct r as [|y r].
   - exists c0. split; [reflexivity|]. apply (no_sl_In _ _ Hn). now left.
   - eexists. split; [rewrite join_cons2; reflexivity|]. apply (no_sl_In _ _ Hn). now left.
@@ -106,11 +106,13 @@ Proof.
   replace (A ++ SL :: f) with ((A ++ [SL]) ++ f) by now rewrite <- app_assoc.
   rewrite firstn_app, Nat.sub_diag, firstn_all. simpl. rewrite app_nil_r.
   assert (Hl : comp_ok l). { apply Forall_app in HF as [_ H]. now inversion H. }
-  destruct (cs ++ [l]) as [|c0 r] eqn:E; [congruence|].
-  assert (Hc0 : comp_ok c0) by now inversion HF.
-  destruct (join_head _ _ _ eq_refl Hc0) as (ch & t & EA & Hch).
-  fold A in EA. rewrite EA at 1. simpl. apply N.eqb_neq in Hch. rewrite N.eqb_sym, Hch. simpl.
-  f_equal. apply rstrip_sl_snoc. subst A. rewrite <- E. now apply join_rev_head.
+  assert (Hfa : forallb (N.eqb SL) (A ++ [SL]) = false).
+  { subst A. destruct (cs ++ [l]) as [|c0 r] eqn:E; [congruence|].
+    assert (Hc0 : comp_ok c0) by now inversion HF.
+    destruct (join_head c0 r Hc0) as (ch & t & EA & Hch).
+    assert (Hq : (SL =? ch) = false) by (apply N.eqb_neq; congruence).
+    rewrite EA. cbn [app forallb]. now rewrite Hq. }
+  rewrite Hfa. f_equal. apply rstrip_sl_snoc. subst A. now apply join_rev_head.
 Qed.
 
 (* ---------- os_join on joined components ---------- *)
@@ -128,11 +130,12 @@ Lemma os_join_joined cs l it :
 Proof.
   intros Hl Hit.
   destruct (join_rev_head cs l Hl) as (ch & t & E & Hc).
-  rewrite join_snoc by (destruct cs; discriminate).
-  unfold os_join. rewrite (last_char_rev _ _ _ E). apply N.eqb_neq in Hc. rewrite Hc.
-  destruct it as [|c r]; [reflexivity|].
-  assert (c <> SL) by (apply (no_sl_In _ _ Hit); now left).
-  apply N.eqb_neq in H. now rewrite H.
+  rewrite (join_snoc (cs ++ [l]) it) by (destruct cs; discriminate).
+  apply N.eqb_neq in Hc.
+  unfold os_join. destruct it as [|c r].
+  - now rewrite (last_char_rev _ _ _ E), Hc.
+  - assert (c <> SL) by (apply (no_sl_In _ _ Hit); now left).
+    apply N.eqb_neq in H. now rewrite H, (last_char_rev _ _ _ E), Hc.
 Qed.
 
 (* ---------- path_prefixb / path_eqb ---------- *)
